@@ -105,10 +105,10 @@ class Pair:
         self._observe()
 
     # -- admissibility of the schedule run so far, recomputed from the harness's own records
-    def admissible(self, tau, d):
+    def admissible(self, tau, d, life):
         """(ok, reason): clock monotone; every event at most tau after the latest update() of either side;
         every datagram first shown to the peer at most d after its emission (or the session ended before
-        that), every copy shown at most d after the emission"""
+        that), every copy shown at most `life` after the emission"""
         last = {"client": self.t0, "server": self.t0}
         prev = self.t0
         for ev in self.events:
@@ -133,21 +133,22 @@ class Pair:
                         return False, "lost %s" % who
                 elif first > rec["time"] + d:
                     return False, "late %s" % who
-                if any(t > rec["time"] + d for t in rec["shown"]):
+                if any(t > rec["time"] + life for t in rec["shown"]):
                     return False, "stale copy %s" % who
         return True, ""
 
-    def model_args(self, tau, d):
-        return [self.net.env, [tau, d, self.Tconn], [self.net.key, self.t0, self.KC, self.KS], self.events]
+    def model_args(self, tau, d, life):
+        return [self.net.env, [tau, d, self.Tconn, life], [self.net.key, self.t0, self.KC, self.KS], self.events]
 
     def close(self):
         self.net.close()
 
 
-def params_ok(KC, KS, tau, d, Tconn):
+def params_ok(KC, KS, tau, d, Tconn, life=None):
+    life = d if life is None else life
     MC, MS = max(KC, SI), max(KS, SI)
-    return (d >= 0 and tau >= 0 and MC + tau + d < Tconn and MS + tau + d <= 5 * T
-            and d <= 32766 * (MC + 1) and d <= 32766 * (MS + 1))
+    return (0 <= d <= life and tau >= 0 and MC + tau + d < Tconn and MS + tau + d <= 5 * T
+            and life <= 32766 * (MC + 1) and life <= 32766 * (MS + 1))
 
 
 def tamper(raw):
@@ -156,13 +157,14 @@ def tamper(raw):
     return bytes(b)
 
 
-def random_session(run, rng, KC, KS, tau, d, Tconn, n_events, dup=0.15, junk=0.05, regular=False, loss=0.0):
+def random_session(run, rng, KC, KS, tau, d, Tconn, n_events, dup=0.15, junk=0.05, regular=False, loss=0.0, life=None):
     """a random schedule, admissible by construction when loss = 0: both sides tick with gaps <= tau (the
     client also whenever a datagram becomes due for it: it reads one datagram per update()), every emitted
     datagram is planned for the peer within the delay bound (reordering falls out of the random delays),
     copies and tampered copies are mixed in; with loss > 0 some datagrams are never shown (inadmissible:
     only the correspondence and the agreement on admissibility are checked then)"""
     p = Pair(run, rng, KC, KS, Tconn)
+    life = d if life is None else life
     q15 = lambda x: (x // 15) * 15
     gap = (lambda: tau) if regular else (lambda: 15 * rng.randrange(1, tau // 15 + 1))
     next_c, next_s = p.t0 + gap(), p.t0 + gap()
@@ -177,8 +179,8 @@ def random_session(run, rng, KC, KS, tau, d, Tconn, n_events, dup=0.15, junk=0.0
                 if rng.random() < loss:
                     continue
                 lst.append((rec["time"] + q15(rng.randrange(0, d + 1)), seen[who]))
-                if rng.random() < dup:
-                    lst.append((rec["time"] + q15(rng.randrange(0, d + 1)), seen[who]))
+                while rng.random() < dup:      # further copies, up to `life` after the emission
+                    lst.append((rec["time"] + q15(rng.randrange(0, life + 1)), seen[who]))
 
     for _ in range(n_events):
         now = p.times[-1]
